@@ -66,31 +66,33 @@ End Statement.
 Definition dur_op (o : op) : Prop :=
   match o with OSet _ _ (Some d) => d <= 3 | _ => True end.
 
+(* every durability stays LOW (the default): writes keep or install LOW, synthetic writes are LOW *)
+Definition low_op (o : op) : Prop :=
+  match o with OSet _ _ (Some d) => d = 0 | OSynth d => d = 0 | _ => True end.
+
 (* the persisted functions only call persisted functions: no dependency is flattened away *)
 Definition persisted_closed (prog : qkey -> body) (pfam : N -> bool) : Prop :=
   forall q q', pfam (fst q) = true -> calls (prog q) q' -> pfam (fst q') = true.
 
-(* The full statement.  PROVED (Persist/PTop.v, Props/C26.v):
+(* The full statement.  PROVED (Persist/PTop.v, Props/C26.v), against the fixed flattening (a
+   dependency without memo is kept as an edge; before that fix the statement was FALSE):
    - for histories without ORestore (C26_results_no_restore), every program and pfam;
-   - with the extra hypothesis [persisted_closed prog pfam] (C26_results_partial).
-   NOT proved in general.  Missing: restore (snapshot s) re-establishes the invariant when a
-   persisted function q calls a non-persisted function d.  The restored memo of q then has the
-   LEAVES of d's memo as edges (ProofsFlatten: flatten_closed, flatten_sound_snapshot are the
-   structural half), and d's memo is gone.  Two things are then needed that the invariant
-   PInv.DInv (observer-relative changed_at stamps, as in Core/DInv.v) does not give:
-   (a) the flattened edges are d's reads at the revision where D'S memo was verified, which
-       need not be the revision where q's memo was verified (d may have been re-executed on
-       its own since): a covering clause with one revision per expanded node, and, for the
-       revisions in between, that a function leaf whose stamp is old NOW had an old stamp THEN;
-   (b) when d is executed again after the restore, in a revision later than q's verified_at,
-       and q is then validated through its flattened edges, q owes d's new memo
-       "m_dur q <= m_dur d": this follows from the observer clause only if d's new changed_at
-       is old, i.e. bounded by the current stamps of the leaves below d.
-   Both are monotonicity-of-stamps facts across time.  Core/DInv.v has the clause for it
-   (mo_stamp / ext_mono: changed_at is bounded by the current stamp of a direct read, and grows);
-   it speaks about the memos of the direct reads, which a restored database does not have, and
-   re-establishing it for a re-executed restored memo needs "the first changed leaf is read
-   again" through the inlined trace of the expanded dependencies. *)
+   - with the extra hypothesis [persisted_closed prog pfam] (C26_results_partial);
+   - for every program and pfam when all durabilities are LOW (C26_results_low): the
+     dependencies that a snapshot flattens away, to any depth, stay observers (PInv.good).
+   NOT proved: restore of a memo with flattened dependencies when some durability is above LOW.
+   Two things are then needed that the LOW case avoids:
+   (a) a memo of durability >= MEDIUM may have been validated by the durability short-cut while
+       its dependencies' memos stayed at older revisions: the flattened edges are then the
+       dependency's reads at a revision BEFORE the memo's verified_at (in LOW mode a memo of
+       durability LOW was verified by a walk or an execution, so its dependencies are at least
+       as recent — PInv.mo_sync — and a memo of higher durability reads no input at all);
+   (b) when a flattened dependency is executed again after the restore, in a revision later
+       than the restored memo's verified_at, and the memo is then validated through its flattened
+       edges, it owes the dependency's new memo "m_dur memo <= m_dur dependency" (trivial when
+       the durability is LOW): this follows from the observer clause only if the new changed_at
+       is old, i.e. bounded by the current stamps of the leaves below — a provenance clause like
+       Core/DInv.v's mo_stamp / ext_mono, over memos that a restored database does not have. *)
 Definition C26_results_full_statement : Prop :=
   forall (prog : qkey -> body) (noeq : qkey -> bool) (pfam : N -> bool) (fams : list N)
          (lru0 : N -> lru_state) (rank : qkey -> nat) (NF : nat),
